@@ -22,6 +22,7 @@ type gen struct {
 	seq    int
 	step   int
 	policy string
+	engine string
 	cur    int64            // current relative log time (ns)
 	exp    map[string]int64 // type/key -> last requested expiry second (relative), tracked heuristically
 	vers   map[string]map[int64]bool
@@ -301,6 +302,7 @@ func (g *gen) sequence(seq int, maxLen int, engine string) {
 		// local deleter's per-type batches dead-lock each other as soon as two types are due
 		engine = "pebble"
 	}
+	g.engine = engine
 	g.emit("NEW", g.policy, engine)
 	past := -(guard + 5*day + int64(g.r.Intn(1900))*day)
 	future := guard + 5*day + int64(g.r.Intn(1400))*day
@@ -324,7 +326,9 @@ func (g *gen) sequence(seq int, maxLen int, engine string) {
 		case x < 88:
 			// background step, with every key observed before and after
 			g.observeAll()
-			if g.policy == "compact" {
+			if g.policy == "compact" && g.engine == "rocksdb" && g.r.Intn(2) == 0 {
+				g.emit("K")
+			} else if g.policy == "compact" {
 				g.emit("C", []string{"100", "100", "50", "30", "0"}[g.r.Intn(5)])
 			} else {
 				g.emit("L")
